@@ -338,6 +338,24 @@ func runC04(o *opts) (*summary, error) {
 	for i, cs := range ext {
 		wa.put(doCall(u, d, cs), "args-extreme", fmt.Sprintf("x%d", i))
 	}
+	// ... and the same tuples ANSWERED by a well-formed reply: what comes back for an out-of-range argument (built from the
+	// reply, or from the argument) is rendered like any other result
+	d.script = func(method string, req []byte) [][]byte {
+		for op, l := range lt.Rsp {
+			if len(req) > 1 && l.Code == int(req[1]) && op != "" {
+				m := l.message(rng, 0x17, req[4:8], "valid", nil)
+				if len(req) >= 11 {
+					copy(m[8:9], req[8:9]) // (the door / first argument byte echoed, the way a controller answers a set request)
+				}
+				return [][]byte{m}
+			}
+		}
+		return nil
+	}
+	for i, cs := range extremeCalls(rng) {
+		wa.put(doCall(u, d, cs), "args-extreme-answered", fmt.Sprintf("xa%d", i))
+	}
+	d.script = nil
 	na := 40
 	if thorough {
 		na = 1500
